@@ -476,7 +476,7 @@ func TestC12Restart(t *testing.T) {
 			ns = stanza.NSServer
 			state |= xmpp.S2S
 		}
-		us := genJID(rt, "us", -1)   // our address (bare: resource handled by bind)
+		us := genJID(rt, "us", -1) // our address (bare: resource handled by bind)
 		them := genJID(rt, "them", -1)
 		if !recv {
 			them = them.Domain()
